@@ -68,7 +68,7 @@ protected:
 
   ASMJIT_INLINE void _release(Arena& arena, uint32_t item_byte_size) noexcept {
     if (_data != nullptr) {
-      arena.free_reusable(_data, _capacity * item_byte_size);
+      arena.free_reusable(_data, size_t(_capacity) * item_byte_size);
       reset();
     }
   }
